@@ -9,14 +9,17 @@ Input : [debug, [step, ...]]
                  , term]                  ['ret', v] | ['raise', e] | 'deferred' (f returns the scenario's Deferred)
        | 'clear'                          spinner.clear_junk()
        | ['setsig', s, h]                 between two calls the process installs handler h for SIGNALS[s]
+       | 'swap'                           from now on the calls go to the other of two Spinner objects on the same reactor
   T    = n | 'neg'                        'neg': a negative timeout - reactor.callLater raises, run() raises before its try/finally
   act  = ['fire', v] | ['fail', e] | 'stop' | 'noop' | 'addsel' | ['setsig', s, h] | ['reenter', fresh]
+       | ['fireold', k, v] | ['failold', k, e]     fire / fail the Deferred of the run k runs earlier (of either Spinner): a Deferred
+                                                   that outlived its run (timeout, interrupt) and fires during a later one
   v    = a value token: VALUES[v] for v < len(VALUES) (objects with a hostile ==, falsy-but-valid values), else the int v.
          "run returns the value f returned or its Deferred fired with" is about the IDENTITY of the value: the harness reports
          the token of the object that came back, found with `is`.
 Trace : [obs, ...]   (see TTV/Drv/C15.lean)
   obs  = ['run', result, events, reentries, junk, pending, sels, running, stopRestored, sigBefore, sigAfter, elapsed]
-       | ['cleared', junk] | ['sigs', handlers now]
+       | ['cleared', junk] | ['sigs', handlers now] | 'swapped'
 Labels: the i-th `pre` call has label i, the j-th operation of f has label len(pre)+j, the spinner's own
 timeout call is `timeout`.
 """
@@ -117,7 +120,10 @@ class C15(Prop):
             'ties between firing, timeout and stop are frequent; thorough adds the full grid term x (fire|fail at 1,2,3 before/inside f or '
             'at once) x (stop at 1,2,3 before/inside f or at once) x order x 0-2 leftovers with timeout 2, and two-run histories with and '
             'without clear_junk. non-trivial = some run is not refused and has a Deferred-returning f with at least one delayed fire/fail/stop, '
-            'or the history has a refused or rejected run; the values f returns / its Deferred fires with are drawn from 12 special objects '
+            'or the history has a refused or rejected run; a fifth of the histories is about Deferreds that outlive their run: runs that '
+            'end by timeout / interrupt without their Deferred having fired, later runs (same Spinner, or after `swap` the second Spinner '
+            'object on the same reactor) during which the Deferred of the run 1-3 runs earlier fires or fails (before, at, after the later '
+            'run\'s own firing, inside f, scheduled before run) - plus a fixed grid of such histories in every quick run; the values f returns / its Deferred fires with are drawn from 12 special objects '
             '(equal to everything, mock.ANY, == without a truth value, None, 0, 0.0, False, empty str/list/tuple/dict, a falsy object) and '
             'plain ints, and the value that comes back is identified with `is`; every quick run also covers the grid value x (returned | '
             'already-fired Deferred | fired later before/inside f | fired at the instant of a stop) x timeout 0/3 and a reuse history; distinct = distinct input S-expression. A quarter of the random histories is about '
@@ -126,6 +132,19 @@ class C15(Prop):
             'thorough adds (signal x handler) x rejected call x (signal x handler) x 6 kinds of next run. 13 scenarios on the REAL Twisted '
             'reactor (feature reactor:real) come first in the thorough enumeration, 5 of them are part of every quick run')
     assumptions = [
+        'LIMIT OF THE MODEL (audit C15 v3): an interrupt is "reactor.stop() requested at an instant of virtual time", executed as a '
+        'delayed call of the reactor. The runtime behaviour it cannot exhibit: a real SIGINT/SIGTERM whose Twisted handler queues '
+        'reactor.callFromThread(reactor.stop) (a) in the very reactor iteration in which the run ends - the queued _fake_stop stays in '
+        'reactor.threadCallQueue, is not junk, and crashes the NEXT run (NoResultError) - or (b) in the few bytecodes between '
+        'un-patching reactor.stop and restoring the signal handlers in the finally block - the REAL reactor.stop is queued and later '
+        'runs get NoResultError / ReactorNotRestartable. threadCallQueue and signal delivery between bytecodes are not modelled; '
+        'recorded, not repaired',
+        'borderline, outside the stated domain (audit C15 b1-b9), not modelled: waiting with a second Spinner on a Deferred that already '
+        'went through a run yields None (the chain ends in None by Twisted\'s rules); stop and firing in the SAME reactor iteration yield '
+        'the value ("stopped first" is iteration-granular - modelled as is: the calls of one instant run in scheduling order, C15_tie_*); '
+        'Spinner._UNSET as a value; f returning a Failure / coroutine; f cancelling the spinner\'s own timeout call; signal handlers '
+        'Python reports as None; set_wakeup_fd / siginterrupt not restored; _OBLIGATORY_REACTOR_ITERATIONS > 0 with a stop during the '
+        'extra iterations reaching the real reactor.stop; TimeoutError\'s message calling a raising __repr__',
         'values are opaque tokens in the model (it never looks at them); the harness maps a token to a Python object and maps the object '
         'that run() returned back with `is` (identity, never ==), so "returns the value f returned or its Deferred fired with" is '
         'checked as identity for objects with a hostile == and for falsy values',
@@ -157,6 +176,8 @@ class C15(Prop):
                 'exception, TimeoutError, NoResultError - decided by the first of "Deferred fires/fails" and "timeout call" in the reactor\'s call '
                 'order (time, scheduling order), unless a stop is due strictly earlier (ties at the timeout instant proved in both directions); '
                 'StaleJunkError iff junk is uncleared and ReentryError for every nested call, both without any other change; a timeout the '
+                'Deferred of an EARLIER run (same or another Spinner on the reactor) that fires or fails during a later run is inert - the '
+                'later run returns its own result (per-run callbacks, fix <commit>); a timeout the '
                 'reactor rejects makes run raise what callLater raised with nothing changed but the spinner\'s own _saved_signals; whenever '
                 'run returns or raises - also then, and whatever an earlier call left in _saved_signals or the process installed in between '
                 '- the SIGINT/SIGTERM/SIGCHLD handlers are what they were immediately before THAT call (per call, and by induction over '
@@ -168,7 +189,10 @@ class C15(Prop):
         'note': 'trusted: Lean kernel, the models TTV/Model/Reactor.lean + Spinner.lean, the harness and harness/vreactor.py; the Twisted reactor '
                 'loop, DelayedCall, Deferred chaining and the signal module are modelled, not verified; real-reactor coverage = 12 smoke scenarios '
                 '(feature reactor:real: 5 per quick run, 13 per thorough run), everything else on the virtual-time reactor; the thread-pool '
-                'path of _clean is not exercised',
+                'path of _clean is not exercised. LIMIT OF THE MODEL: interrupts are reactor.stop() requests at instants of virtual time; a real '
+                'signal whose queued callFromThread(reactor.stop) arrives in the iteration in which the run ends, or between un-patching '
+                'reactor.stop and restoring the handlers, leaks into the next run (NoResultError / ReactorNotRestartable) - threadCallQueue and '
+                'signal delivery between bytecodes are not modelled, the model cannot exhibit this (audit C15 v3, recorded, not repaired)',
         'technique': 'Lean 4 invariant proofs over a discrete-event model (sorted call queue, fuelled reactor loop), executable spec shared with a '
                      'differential correspondence check against the real code on a virtual-time reactor',
     }
@@ -236,16 +260,21 @@ class C15(Prop):
         else:
             r = VirtualReactor()
             scale = 1
-        sp = S.Spinner(r, debug=debug)
         real_events = []
-        if real:
-            timed_out = sp._timed_out          # instrumentation only: note when the spinner's own timeout call runs
 
-            def noting_timed_out(*a, **kw):
-                arrived(real_T[0])
-                real_events.append([real_T[0], 'timeout'])
-                return timed_out(*a, **kw)
-            sp._timed_out = noting_timed_out
+        def make_spinner():
+            sp = S.Spinner(r, debug=debug)
+            if real:
+                timed_out = sp._timed_out          # instrumentation only: note when the spinner's own timeout call runs
+
+                def noting_timed_out(*a, **kw):
+                    arrived(real_T[0])
+                    real_events.append([real_T[0], 'timeout'])
+                    return timed_out(*a, **kw)
+                sp._timed_out = noting_timed_out
+            return sp
+        sp, other_sp = make_spinner(), make_spinner()
+        olds = []           # the Deferreds of the earlier runs
         real_T = [0]
         drift = [0.0]
 
@@ -266,6 +295,10 @@ class C15(Prop):
         for step in steps:
             if step == 'clear':
                 trace.append(['cleared', [jrepr(x) for x in sp.clear_junk()]])
+                continue
+            if step == 'swap':
+                sp, other_sp = other_sp, sp
+                trace.append('swapped')
                 continue
             if step[0] == 'setsig':
                 signal.signal(getattr(signal, SIGNALS[step[1]]), HANDLERS[step[1]][step[2]])
@@ -292,6 +325,16 @@ class C15(Prop):
                             d.errback(KeyError(a[1]))
                         except AlreadyCalledError:
                             pass
+                elif kind in ('fireold', 'failold'):
+                    def go():
+                        if 1 <= a[1] <= len(olds):
+                            try:
+                                if kind == 'fireold':
+                                    olds[-a[1]].callback(value_of(a[2]))
+                                else:
+                                    olds[-a[1]].errback(KeyError(a[2]))
+                            except AlreadyCalledError:
+                                pass
                 elif kind == 'stop':
                     def go():
                         r.stop()
@@ -397,6 +440,7 @@ class C15(Prop):
                 for dc in r.getDelayedCalls():
                     dc.cancel()
             d.addErrback(lambda failure: None)     # an orphaned failed Deferred shall not log at collection
+            olds.append(d)
         if real:
             for dc in r.getDelayedCalls():          # leave the process clean whatever happened
                 dc.cancel()
@@ -430,7 +474,29 @@ class C15(Prop):
         return [[False, steps, 'real'] for _, steps, quick in self.REAL if quick or not quick_only]
 
     def corpus(self):
-        return Prop.corpus(self) + self.real_inputs(True) + self.value_grid()
+        return Prop.corpus(self) + self.real_inputs(True) + self.value_grid() + self.late_grid()
+
+    def late_grid(self):
+        """a Deferred that outlived its run fires / fails during a later run: first run (times out | is interrupted | times out and the
+        junk is not cleared) x later run on (the same | the other) Spinner x what the later run has of its own (value after / before /
+        at the instant of the late firing, nothing, a synchronous value, a failure) x late (value | failure)"""
+        firsts = [[['run', 1, [], [], 'deferred']], [['run', 5, [[1, 'stop']], [], 'deferred'], 'clear'],
+                  [['run', 1, [], [['later', 3, 'noop']], 'deferred'], 'clear'], [['run', 5, [], [['later', 1, 'stop'], ['later', 9, 'noop']], 'deferred']]]
+        out = []
+        for first in firsts:
+            for swap in (False, True):
+                for late in (['fireold', 1, 7], ['failold', 1, 2]):
+                    seconds = [['run', 9, [], [['later', 1, late], ['later', 2, ['fire', 3]]], 'deferred'],
+                               ['run', 9, [], [['later', 2, late], ['later', 1, ['fire', 3]]], 'deferred'],
+                               ['run', 9, [], [['later', 1, late], ['later', 1, ['fire', 3]]], 'deferred'],
+                               ['run', 9, [[1, ['fire', 3]]], [['later', 1, late]], 'deferred'],
+                               ['run', 3, [], [['later', 1, late]], 'deferred'],
+                               ['run', 3, [], [['now', late]], ['ret', 4]],
+                               ['run', 9, [], [['later', 1, late], ['later', 2, ['fail', 1]]], 'deferred'],
+                               ['run', 9, [], [['later', 1, late], ['later', 2, 'stop'], ['later', 3, ['fire', 3]]], 'deferred']]
+                    for sec in seconds:
+                        out.append([False, first + (['swap'] if swap else []) + [sec, 'clear', ['run', 2, [], [['later', 1, ['fire', 5]]], 'deferred']]])
+        return out
 
     def value_grid(self):
         """every value token x every way a value reaches Spinner._got_success: returned by f, carried by an already fired Deferred,
@@ -481,7 +547,42 @@ class C15(Prop):
         term = 'deferred' if t < 0.7 else ['ret', rng.randrange(len(VALUES) + 3)] if t < 0.85 else ['raise', rng.randrange(4)]
         return ['run', T, pre, body, term]
 
+    def gen_late(self, rng):
+        """histories in which Deferreds outlive their run (timeout, interrupt) and fire during later runs of the same or the other Spinner"""
+        steps = []
+        for i in range(rng.choice([2, 2, 3, 3, 4])):
+            sc = self.gen_scen(rng)
+            if i == 0 or rng.random() < 0.5:
+                # a run that ends without its Deferred having fired
+                sc[4] = 'deferred'
+                sc[2] = [[d, a] for d, a in sc[2] if not (isinstance(a, list) and a[0] in ('fire', 'fail'))]
+                sc[3] = [op for op in sc[3] if not (isinstance(op[-1], list) and op[-1][0] in ('fire', 'fail'))]
+                if rng.random() < 0.5:
+                    sc[3].append(['later', rng.choice([0, 1, max(sc[1] - 1, 0)]), 'stop'])
+            if i > 0:
+                for _ in range(rng.choice([1, 1, 2])):
+                    late = [rng.choice(['fireold', 'fireold', 'failold']), rng.choice([1, 1, 1, 2, 3]), rng.randrange(len(VALUES) + 3)]
+                    if late[0] == 'failold':
+                        late[2] = rng.randrange(4)
+                    T = sc[1]
+                    where = rng.random()
+                    delay = rng.choice([0, 1, 1, 2, max(T - 1, 0), T, T + 1])
+                    if where < 0.7:
+                        sc[3].insert(rng.randrange(len(sc[3]) + 1), ['later', delay, late])
+                    elif where < 0.85:
+                        sc[3].insert(rng.randrange(len(sc[3]) + 1), ['now', late])
+                    else:
+                        sc[2].append([delay, late])
+            steps.append(sc)
+            if rng.random() < 0.8:
+                steps.append('clear')
+            if rng.random() < 0.35:
+                steps.append('swap')
+        return [rng.random() < 0.2, steps]
+
     def gen(self, rng, tier):
+        if rng.random() < 0.2:
+            return self.gen_late(rng)
         n = rng.choice([1, 1, 1, 2, 2, 3, 4])
         steps = []
         # a quarter of the histories is about the signal handlers: calls the reactor rejects, the process installing handlers between
@@ -568,7 +669,9 @@ class C15(Prop):
 
     def features(self, inp, trace):
         f = ['steps=%d' % len(inp[1]), 'runs=%d' % len(self._runs(inp)), 'reactor:' + ('real' if len(inp) > 2 else 'virtual')]
-        kinds = [s if s == 'clear' else s[0] if s[0] == 'setsig' else 'run-neg' if s[1] == 'neg' else 'run' for s in inp[1]]
+        kinds = [s if isinstance(s, str) else s[0] if s[0] == 'setsig' else 'run-neg' if s[1] == 'neg' else 'run' for s in inp[1]]
+        if 'swap' in kinds:
+            f.append('two-spinners')
         if 'setsig' in kinds:
             f.append('process-installs-handler-between-calls')
         for i, k in enumerate(kinds):
@@ -595,11 +698,15 @@ class C15(Prop):
                     f.append('%s-%s-%s' % (k if k == 'stop' else 'fire', where, 'before' if d < T else 'at' if d == T else 'after') + '-timeout')
             for a in self._acts(sc):
                 k = a if isinstance(a, str) else a[0]
-                if k in ('addsel', 'setsig', 'reenter'):
+                if k in ('addsel', 'setsig', 'reenter', 'fireold', 'failold'):
                     f.append('act:' + k)
             for op in sc[3]:
                 if op[0] == 'now':
                     f.append('now:' + (op[1] if isinstance(op[1], str) else op[1][0]))
+            olds_fired = [e for e in o[2] if isinstance(e[1], int) and e[1] < len(self._acts(sc)) and
+                          isinstance(self._acts(sc)[e[1]], list) and self._acts(sc)[e[1]][0] in ('fireold', 'failold')]
+            if olds_fired:
+                f.append('earlier-runs-deferred-fired-during-run:' + (res if isinstance(res, str) else res[0]))
             if res not in ('stalejunk', 'rejected'):
                 f.append('junk=%s' % min(len(o[4]), 3))
                 f.append('events=%s' % min(len(o[2]), 4))
@@ -616,7 +723,7 @@ class C15(Prop):
         if debug:
             yield [False, steps]
         for i, s in enumerate(steps):
-            if s == 'clear':
+            if isinstance(s, str):
                 continue
             def put(ns):
                 return [debug, steps[:i] + [ns] + steps[i + 1:]]
